@@ -254,8 +254,13 @@ def check_plan(ctx, plan):
                     rep.viol("enabled_sink_empty", key, "%s: block %d string switch on (current user number %s), table has %d data rows, string is empty" % (where, n, cur, len(tab) - 1))
                 else:
                     streams.check_lines(rep, "lines", "Sel%d" % n, s, post[p + "lines"], post[p + "lc"], where)
-                    streams.check_sel_string_vs_table(rep, "sel_text", n, s, tab, where)
-                    rep.count("string_vs_table")
+                    if n not in run.get("redef", []):
+                        # a redefinition of the block inside the call changes its headings in mid-table: the text of the call then holds two
+                        # heading lines and the typed table the union of both column sets; the cell-by-cell mapping applies to one definition per call
+                        streams.check_sel_string_vs_table(rep, "sel_text", n, s, tab, where)
+                        rep.count("string_vs_table")
+                    else:
+                        rep.count("string_vs_table_skipped_redefinition")
                     if len(tab) > 2:
                         nontrivial = True
             else:
